@@ -153,6 +153,22 @@ def judge(kind, f, out):
         s_exc = type(ex).__name__
     sent = fab.out
     fab.out = []
+    # 4. the same with the legacy-padding flag of the call site: it decides about two trailing octets on
+    #    version 0, never about whether a message is valid
+    gl_ok = gl_exc = sl_exc = None
+    try:
+        build(kind, f).gen_msg(True)
+        gl_ok = True
+    except ValueError:
+        gl_ok = False
+    except Exception as ex:
+        gl_ok, gl_exc = False, type(ex).__name__
+    try:
+        e["dif"].send_msg(build(kind, f), True)
+    except BaseException as ex:
+        sl_exc = type(ex).__name__
+    sent_l = fab.out
+    fab.out = []
 
     def field_class():
         bad = [k for k in sorted(f) if not field_ok(kind, k, f)]
@@ -167,6 +183,14 @@ def judge(kind, f, out):
         viol("gen-raises-" + g_exc, "gen_msg() raised %s instead of ValueError" % g_exc)
     if s_exc:
         viol("send-raises-" + s_exc, "send_msg() raised %s" % s_exc)
+    if gl_exc or sl_exc:
+        viol("legacy-flag-raises-" + (gl_exc or sl_exc), "gen_msg(legacy=True) / send_msg(legacy=True) raised %s" % (gl_exc or sl_exc))
+    elif not (g_exc or s_exc):
+        if gl_ok != g_ok:
+            viol("legacy-flag-gen", "gen_msg(legacy=True) %s a message that gen_msg(legacy=False) %s"
+                 % ("encodes" if gl_ok else "refuses", "encodes" if g_ok else "refuses"))
+        if len(sent_l) != len(sent):
+            viol("legacy-flag-send", "send_msg(legacy=True) emitted %d datagram(s), send_msg(legacy=False) %d" % (len(sent_l), len(sent)))
     if exp is not None:
         if v_ok != exp and not v_exc:
             viol("validate-accepts" if v_ok else "validate-rejects",
